@@ -9,11 +9,13 @@ R3 loud failure             : non-empty bad list => raise; convergence error => 
 R4 the right two points     : the acceptance test compares the last two points of the *copy's* series of that variable."""
 import ast
 
+from ..inline import flatten
+
 from .. import cfg as cfgmod
 from ..loader import AnalysisError, unparse, call_name, attr_chain
-from ..dataflow import single_assign_subst, target_names, mutations_in, linform, lin_eq
+from ..dataflow import single_assign_subst, target_names, mutations_in, linform, lin_eq, resolve_expr
 from ..solver_model import solver_function, Sweep
-from ..cfg import raised_name, exc_is_a, handler_types
+from ..cfg import raised_name, exc_is_a, handler_types, atomic_facts
 
 TECHNIQUE = ('static analysis: sign-domain evaluation of denominators, write-set computation through `self` vs the deep copy, '
              'dominance of the raising guard, path check from "bad" to the k=0 install')
@@ -84,10 +86,12 @@ def run(prog, check):
     check.explanation = EXPLANATION
     check.not_decided = 'the bound on the change of one further solved period (numerical)'
     check.assumptions = ['copy.deepcopy copies every data member of the solver']
-    ss = solver_function(prog, 'steady_state')
+    ss_raw = solver_function(prog, 'steady_state')
     sw = Sweep(prog)
-    check.saw(ss)
+    check.saw(ss_raw)
     check.saw(sw.f)
+    # private helpers of the search (acceptance test, copy) are looked through
+    ss = flatten(prog, ss_raw)
     # ---- R1: all quotients of the solver module ---------------------------------------------------
     m = ss.module
     nq = 0
@@ -130,7 +134,8 @@ def run(prog, check):
              'any search: the parser / exogenous lists of the original solver would be overwritten')
     series_loops = [n for n in ast.walk(ss.node) if isinstance(n, ast.For) and any(
         isinstance(x, ast.Subscript) and isinstance(x.slice, ast.UnaryOp) for x in ast.walk(n)) and any(
-        isinstance(x, ast.Compare) and any(isinstance(y, ast.Attribute) and 'Toler' in y.attr for y in ast.walk(x)) for x in ast.walk(n))]
+        isinstance(x, ast.Compare) and any(isinstance(y, ast.Attribute) and 'Toler' in y.attr
+                                           for y in ast.walk(resolve_expr(x, subst))) for x in ast.walk(n))]
     if not series_loops:
         raise AnalysisError('acceptance loop not found in ' + ss.qualname)
     loop = series_loops[0]
@@ -198,6 +203,9 @@ def run(prog, check):
                              'callee does not write solver state' if not ws else 'callee writes %s on the original solver' % sorted(ws),
                              'search must leave the original solver untouched')
     # ---- R3 --------------------------------------------------------------------------------------
+    # decided by state searches over the flattened function (truthiness constants honoured):
+    #   within one pass through the acceptance loop body: rej / inst = the variable was recorded as not converged /
+    #   installed as k=0 value;  last = outcome of the last tolerance comparison taken (exceeding or not)
     badlists = [n.targets[0].id for n in ast.walk(ss.node) if isinstance(n, ast.Assign) and isinstance(n.targets[0], ast.Name)
                 and isinstance(n.value, ast.List) and not n.value.elts and
                 any(isinstance(c, ast.Call) and call_name(c) == 'append' and isinstance(c.func.value, ast.Name)
@@ -205,58 +213,98 @@ def run(prog, check):
     if len(badlists) != 1:
         raise AnalysisError('cannot identify the list of non-converged variables: %s' % badlists)
     bl = badlists[0]
-    tests = [t for t in g.nodes if t.kind == 'test' and loop not in t.loops and any(
-        isinstance(x, ast.Name) and x.id == bl for x in ast.walk(t.ast))]
-    ok = False
-    for t in tests:
-        e = t.ast
-        nonempty_true = (isinstance(e, ast.Compare) and isinstance(e.left, ast.Call) and call_name(e.left) == 'len' and (
-            (isinstance(e.ops[0], ast.Gt) and lin_eq(linform(e.comparators[0]), {'': 0})) or
-            (isinstance(e.ops[0], ast.GtE) and lin_eq(linform(e.comparators[0]), {'': 1})) or
-            (isinstance(e.ops[0], ast.NotEq) and lin_eq(linform(e.comparators[0]), {'': 0})))) or \
-            (isinstance(e, ast.Name) and e.id == bl)
-        if nonempty_true:
-            r = g.reach([b for b, l in g.succ[t.id] if l is True], include_src=True)
-            rn = [g.nodes[i] for i in r if g.nodes[i].kind == 'stmt' and isinstance(g.nodes[i].ast, ast.Raise)]
-            if g.raise_exit.id in r and g.exit.id not in r and rn and all(
-                    raised_name(x.ast) and exc_is_a(raised_name(x.ast), 'ValueError') for x in rn):
-                # and the test is on every path from the loop to the normal exit
-                hdr = [n for n in g.nodes if n.kind == 'for' and n.stmt is loop][0]
-                if g.must_pass(hdr, g.exit, [t]):
-                    ok = True
-    check.ob('C15.R3', '%s::bad-list-raises' % ss.key, ok, ss.where,
-             'a non-empty list of non-converged variables raises on every path to the normal return' if ok else
-             'the function can return normally although variables were flagged as not converged',
-             'an unstable or drifting system')
-    # flagged => not installed
-    flag_nodes = [n for n in g.stmt_nodes() if n.kind == 'stmt' and isinstance(n.ast, ast.Assign) and
-                  isinstance(n.ast.value, ast.Constant) and n.ast.value.value is True and loop in n.loops]
-    install = [n for n in g.stmt_nodes() if n.kind == 'stmt' and isinstance(n.ast, ast.Assign) and loop in n.loops and
-               isinstance(n.ast.targets[0], ast.Subscript) and 'TimeSeries' in unparse(n.ast.targets[0]) and
-               unparse(n.ast.targets[0]).startswith('self.')]
+    from ..dataflow import truth_search, trace
     hdr = [n for n in g.nodes if n.kind == 'for' and n.stmt is loop][0]
-    ok = bool(flag_nodes)
-    flag_names = {nm for fl in flag_nodes for nm in target_names(fl.ast.targets[0])}
 
-    def edge_ok(a, b, lab):
-        # after `flag = True` every test of the flag itself takes its true outcome (until the flag is re-assigned)
-        na = g.nodes[a]
-        if na.kind == 'test':
-            t, pol = na.ast, True
-            if isinstance(t, ast.UnaryOp) and isinstance(t.op, ast.Not):
-                t, pol = t.operand, False
-            if isinstance(t, ast.Name) and t.id in flag_names:
-                return lab is pol
-        return True
-    resets = {n.id for n in g.stmt_nodes() if n.kind == 'stmt' and isinstance(n.ast, ast.Assign) and
-              any(nm in flag_names for nm in target_names(n.ast.targets[0])) and n not in flag_nodes}
-    for fl in flag_nodes:
-        r = g.reach([fl], avoid={hdr.id} | resets, edge_ok=edge_ok)
-        if any(i.id in r for i in install):
-            ok = False
-    check.ob('C15.R3', '%s::flagged-variable-not-installed' % ss.key, ok, '%s:%d' % (ss.module.rel, loop.lineno),
-             'a variable flagged as not converged is never installed as k=0 value' if ok else
-             'a flagged variable can still be installed (or flag / install sites not found)', 'a drifting variable')
+    def is_reject(n):
+        return n.kind == 'stmt' and any(isinstance(c, ast.Call) and call_name(c) == 'append' and isinstance(c.func.value, ast.Name)
+                                        and c.func.value.id == bl for c in ast.walk(n.ast))
+
+    def is_install(n):
+        return n.kind == 'stmt' and isinstance(n.ast, ast.Assign) and isinstance(n.ast.targets[0], ast.Subscript) and \
+            'TimeSeries' in unparse(n.ast.targets[0]) and unparse(n.ast.targets[0]).startswith('self.')
+
+    def tolerance_outcome(test, label):
+        """'exceeds' / 'within' when the branch outcome says |change| (or the relative error) is above / not above the
+        tolerance, else None"""
+        out = None
+        for _, val, e in atomic_facts(test, label):
+            e = resolve_expr(e, subst)
+            if not (isinstance(e, ast.Compare) and len(e.ops) == 1):
+                continue
+            l_, r_, op = e.left, e.comparators[0], e.ops[0]
+            tol_r = any(isinstance(x, ast.Attribute) and 'ErrorToler' in x.attr for x in ast.walk(r_))
+            tol_l = any(isinstance(x, ast.Attribute) and 'ErrorToler' in x.attr for x in ast.walk(l_))
+            if tol_r and has_abs(l_, subst) and isinstance(op, (ast.Gt, ast.GtE)):
+                out = 'exceeds' if val else 'within'
+            elif tol_r and has_abs(l_, subst) and isinstance(op, (ast.Lt, ast.LtE)):
+                out = 'within' if val else 'exceeds'
+            elif tol_l and has_abs(r_, subst) and isinstance(op, (ast.Lt, ast.LtE)):
+                out = 'exceeds' if val else 'within'
+            elif tol_l and has_abs(r_, subst) and isinstance(op, (ast.Gt, ast.GtE)):
+                out = 'within' if val else 'exceeds'
+            elif tol_r or tol_l:
+                out = 'malformed'
+        return out
+    tol_tests = [t for t in g.nodes if t.kind == 'test' and loop in t.loops and
+                 (tolerance_outcome(t.ast, True) or tolerance_outcome(t.ast, False))]
+
+    def step_iter(extra, node, lab, env, nxt):
+        rej, inst, last, reached = extra
+        if is_reject(node):
+            rej = min(2, rej + 1)
+            if last != 'exceeds':
+                reached = reached | frozenset(['reject-without-exceeding'])
+        if is_install(node) and loop in node.loops:
+            inst = min(2, inst + 1)
+        if node.kind == 'test' and lab in (True, False) and loop in node.loops:
+            o = tolerance_outcome(node.ast, lab)
+            if o:
+                last = o
+                reached = reached | frozenset([(node.id, o)])
+        return (rej, inst, last, reached)
+    first = [b_ for b_, lab in g.succ[hdr.id] if lab is True]
+
+    def leave_iteration(a, b_, lab):
+        return b_ == hdr.id and False
+    hits, seen = truth_search(g, first, [hdr], extra0=(0, 0, None, frozenset()), step=step_iter,
+                              stop_edge=lambda a, b_, lab: a == hdr.id)
+    ends = [k for k in seen if k[0] == hdr.id and seen[k] is not None]
+    both = [k for k in ends if k[2][0] and k[2][1]]
+    check.ob('C15.R3', '%s::flagged-variable-not-installed' % ss.key, not both and bool(ends), '%s:%d' % (ss.module.rel, loop.lineno),
+             'a variable recorded as not converged is never installed as k=0 value' if not both else
+             'a variable can be recorded as not converged and still be installed (lines %s)' % trace(seen, both[0], g), 'a drifting variable')
+    undecided = [k for k in ends if k[2][2] is not None and (k[2][0] + k[2][1]) != 1]
+    check.ob('C15.R3', '%s::flagged-variable-recorded' % ss.key, not undecided and bool(ends), '%s:%d' % (ss.module.rel, loop.lineno),
+             'every tested variable is either installed or recorded as not converged, exactly once' if not undecided else
+             'a tested variable can be neither installed nor recorded (or both / twice): lines %s' % trace(seen, undecided[0], g),
+             'a drifting variable')
+    wrong = [k for k in ends if 'reject-without-exceeding' in k[2][3]]
+    for t in tol_tests:
+        malformed = 'malformed' in (tolerance_outcome(t.ast, True), tolerance_outcome(t.ast, False))
+        exceed_rejects = any((t.id, 'exceeds') in k[2][3] and k[2][0] for k in ends)
+        within_rejects = any(k[2][0] and k[2][2] == 'within' for k in ends)
+        ok_t = (not malformed) and exceed_rejects and not wrong and not within_rejects
+        check.ob('C15.R3', '%s::tolerance-test(%s)' % (ss.key, unparse(t.ast)), ok_t, '%s:%d' % (ss.module.rel, t.line),
+                 'exceeding the tolerance (and only that) leads to the variable being recorded as not converged' if ok_t
+                 else 'tolerance comparison does not reject in the exceeding direction', 'a moving series')
+    # a recorded variable makes the normal return unreachable, and what is raised is a value error
+    def step_all(extra, node, lab, env, nxt):
+        return 1 if (extra or is_reject(node)) else 0
+    hits2, seen2 = truth_search(g, [g.entry], [g.exit], extra0=0, step=step_all)
+    bad_exit = [k for k in seen2 if k[0] == g.exit.id and k[2] == 1]
+    raises_ok = True
+    for k in seen2:
+        nd = g.nodes[k[0]]
+        if k[2] == 1 and nd.kind == 'stmt' and isinstance(nd.ast, ast.Raise) and loop not in nd.loops:
+            if not (raised_name(nd.ast) and exc_is_a(raised_name(nd.ast), 'ValueError')):
+                raises_ok = False
+    ok = not bad_exit and raises_ok and any(is_reject(n) for n in g.nodes)
+    check.ob('C15.R3', '%s::bad-list-raises' % ss.key, ok, ss.where,
+             'a recorded non-converged variable makes the normal return unreachable; a value error is raised' if ok else
+             'the function can return normally although variables were recorded as not converged (lines %s)' % (
+                 trace(seen2, bad_exit[0], g) if bad_exit else '?'),
+             'an unstable or drifting system')
     # ---- R5: every variable that was checked and accepted is installed ------------------------------------
     all_install = [n for n in g.stmt_nodes() if n.kind == 'stmt' and isinstance(n.ast, ast.Assign) and
                    isinstance(n.ast.targets[0], ast.Subscript) and 'TimeSeries' in unparse(n.ast.targets[0]) and
@@ -289,33 +337,6 @@ def run(prog, check):
                  'the value installed is `%s` for key `%s`' % (unparse(n.ast.value), unparse(n.ast.targets[0])), 'any accepted search')
     check.ob('C15.R5', '%s::install-present' % ss.key, bool(all_install), ss.where,
              'accepted values are written to TimeSeries[var][0]' if all_install else 'nothing is installed after a successful search', '')
-    appended = all(any(b.id in g.reach([fl], avoid={hdr.id}) for b in g.stmt_nodes() if b.kind == 'stmt' and any(
-        isinstance(c, ast.Call) and call_name(c) == 'append' and isinstance(c.func.value, ast.Name) and c.func.value.id == bl
-        for c in ast.walk(b.ast))) for fl in flag_nodes) and bool(flag_nodes)
-    # every path from a flag to the loop header passes the append
-    apps = [b for b in g.stmt_nodes() if b.kind == 'stmt' and any(
-        isinstance(c, ast.Call) and call_name(c) == 'append' and isinstance(c.func.value, ast.Name) and c.func.value.id == bl
-        for c in ast.walk(b.ast))]
-    every = bool(flag_nodes) and all(hdr.id not in g.reach([fl], avoid={a.id for a in apps} | resets, edge_ok=edge_ok)
-                                     for fl in flag_nodes)
-    check.ob('C15.R3', '%s::flagged-variable-recorded' % ss.key, every, '%s:%d' % (ss.module.rel, loop.lineno),
-             'every flagged variable is appended to the bad list' if every else 'a flagged variable may not reach the bad list',
-             'a drifting variable')
-    # the relative / absolute tests flag in the rejecting direction: `> tol`
-    for t in g.nodes:
-        if t.kind == 'test' and loop in t.loops and isinstance(t.ast, ast.Compare) and len(t.ast.ops) == 1 and \
-                any(isinstance(x, ast.Attribute) and 'ErrorToler' in x.attr for x in ast.walk(t.ast)):
-            l = t.ast.left
-            rejecting = isinstance(t.ast.ops[0], (ast.Gt, ast.GtE)) and has_abs(l, subst)
-            # the True branch can reach a flag
-            r = g.reach([b for b, lab in g.succ[t.id] if lab is True], avoid={hdr.id}, include_src=True)
-            reach_flag = any(fl.id in r for fl in flag_nodes)
-            rf = g.reach([b for b, lab in g.succ[t.id] if lab is False], avoid={hdr.id}, include_src=True)
-            no_flag_other = not any(fl.id in rf for fl in flag_nodes)
-            check.ob('C15.R3', '%s::tolerance-test(%s)' % (ss.key, unparse(t.ast)), rejecting and reach_flag and no_flag_other,
-                     '%s:%d' % (ss.module.rel, t.line),
-                     'exceeding the tolerance (and only that) leads to the flag' if (rejecting and reach_flag and no_flag_other)
-                     else 'tolerance comparison does not reject in the exceeding direction', 'a moving series')
     # convergence error => value error
     conv = False
     for n in ast.walk(ss.node):
